@@ -51,7 +51,9 @@ def handle (j : J) : J :=
             (Driver.tyOfJson (j.getD "type"))))]
   | "readLit" => .obj [("lit", J.ofOpt litToJson (readLit (j.strD "text").toList))]
   | "litOf" => .obj [("lit", J.ofOpt litToJson (litOf s 64 (Driver.tyOfJson (j.getD "type")) (j.getD "value")))]
-  | "printLitOf" => .obj [("text", jChars (Prims.printAstOfValue s (j.getD "value") (Driver.tyOfJson (j.getD "type"))))]
+  | "printLitOf" =>
+    .obj [("text", jChars ((if j.boolD "strict" then Prims.printAstOfValueStrict else Prims.printAstOfValue)
+            s (j.getD "value") (Driver.tyOfJson (j.getD "type"))))]
   | _ => .obj [("error", .str "bad-op")]
 
 end DriverC15
